@@ -51,6 +51,16 @@ Proof.
   apply GdsRtS_stream_wf_render; [exact Hok | exact Hk | apply (GdsRt_write_ok_fits l bs Hw)].
 Qed.
 
+(** (3b) ... and the stream ENDS with the end-of-library record: splitting the bytes into records up to ENDLIB leaves no byte
+    over (what [stream_wf] alone does not say: it reads up to ENDLIB and ignores what follows, as a reader of tape-padded
+    files must). *)
+Theorem C02_stream_ends_at_endlib :
+  forall l bs, lib_ok l -> ~ KnownClass_C01 l -> write_lib l = Ok bs -> exists rs, split_stream bs = Some (rs, []).
+Proof.
+  intros l bs Hok Hk Hw. exists (g_library l). rewrite (C02_writer_is_reference l bs Hok Hw), <- (app_nil_r (spec_render l)).
+  apply GdsRtS_split_render; [exact Hok | exact Hk | apply (GdsRt_write_ok_fits l bs Hw)].
+Qed.
+
 (** (4) The independent decoder recovers the library from the bytes: exactly [l], except that a
     real-valued field holding -0.0 comes back as +0.0. *)
 Theorem C02_spec_parse :
@@ -138,6 +148,7 @@ Check C02_write_errors_only_on_length :
   forall l, (some_payload_too_long l = false /\ exists bs, write_lib l = Ok bs) \/
             (some_payload_too_long l = true /\ write_lib l = Err ERecordLen).
 Check C02_stream_wf : forall l bs, lib_ok l -> ~ KnownClass_C01 l -> write_lib l = Ok bs -> stream_wf bs.
+Check C02_stream_ends_at_endlib : forall l bs, lib_ok l -> ~ KnownClass_C01 l -> write_lib l = Ok bs -> exists rs, split_stream bs = Some (rs, []).
 Check C02_spec_parse : forall l bs, lib_ok l -> ~ KnownClass_C01 l -> write_lib l = Ok bs -> spec_parse bs = Some (lib_canon l).
 Check C02_spec_parse_eq :
   forall l bs, lib_ok l -> ~ KnownClass_C01 l -> write_lib l = Ok bs ->
@@ -158,6 +169,7 @@ Print Assumptions C02_spec_parse.
 Print Assumptions C02_spec_parse_eq.
 Print Assumptions C02_spec_parse_exact.
 Print Assumptions C02_stream_wf_total.
+Print Assumptions C02_stream_ends_at_endlib.
 Print Assumptions C02_spec_parse_total.
 Print Assumptions C02_known_class_refuted.
 Print Assumptions C02_numbering_is_spec.
